@@ -96,8 +96,8 @@ Definition run_case (c : case) : bool :=
 COLS = ["a", "b", "c"]
 ATOMS = ["l.a = r.a", "l.b = r.b", "l.c = r.c", "substr(l.a,1,1) = substr(r.a,1,1)"]
 SCRATCH = "/var/tmp/c20"
-# completeness_data keeps its result table in the SQL-keyed cache (finding reported; set to False once fixed in /repo)
-COMPLETENESS_NEEDS_CLEANUP = True
+# completeness_data used to answer from the SQL-keyed cache (fixed in /repo 6852270f): no cleanup call between the by-name calls
+COMPLETENESS_NEEDS_CLEANUP = False
 
 
 # ---------------------------------------------------------------------------- generation
@@ -284,10 +284,25 @@ def run_impl(case):
                 if step == 0:      # several tables as data frames (bags with duplicates)
                     api0 = su.make_api("duckdb")
                     res["raw_completeness"] = completeness_data(api0.register_multiple_tables(raw_frames_of(case[key])), api0, None, raw_names)
+            # by name: ONE table (with several tables the SQL text contains fresh random aliases and is never reused);
+            # no cleanup call: profile_columns cleans up after itself
             pcap2.clear()
-            profile_columns(raw_names, papi, column_expressions=["a", "b"], top_n=case.get("top_n", 10),
-                            bottom_n=case.get("bottom_n", 10))          # no cleanup call: it cleans up after itself
-            res[f"{tag}_profile"] = dict(pcap2)
+            profile_columns(raw_names[:1], papi, column_expressions=["a", "b"], top_n=case.get("top_n", 10),
+                            bottom_n=case.get("bottom_n", 10))
+            res[f"{tag}_named_profile"] = dict(pcap2)
+            if step == 0:      # several tables as data frames (bags with duplicates)
+                papi0 = su.make_api(case["backend"])
+                pcap0 = {}
+                porig0 = papi0.sql_pipeline_to_splink_dataframe
+
+                def pwrapped0(pipeline, use_cache=True):
+                    sdf = porig0(pipeline, use_cache)
+                    pcap0[sdf.templated_name] = sdf.as_record_dict()
+                    return sdf
+                papi0.sql_pipeline_to_splink_dataframe = pwrapped0
+                profile_columns(raw_frames_of(case[key]), papi0, column_expressions=["a", "b"], top_n=case.get("top_n", 10),
+                                bottom_n=case.get("bottom_n", 10))
+                res["raw_profile"] = pcap0
     res["self_link"] = lk._self_link().as_record_dict()
     res["unlinkables"] = unlinkables_data(lk)
     return res
@@ -416,7 +431,9 @@ def build(case, res):
     rows = main_rows
     # ---- profile_columns (same two views)
     for view, rows, prof, pcols in (("", main_rows, res.get("profile"), COLS), ("raw ", raw_rows, res.get("raw_profile"), ["a", "b"]),
-                                    ("after the named raw tables were replaced: ", raw2_rows, res.get("raw2_profile"), ["a", "b"])):
+                                    ("named table ", [x for x in raw_rows if x[0] == "raw0"], res.get("raw_named_profile"), ["a", "b"]),
+                                    ("after the named table was replaced: ", [x for x in raw2_rows if x[0] == "raw0"],
+                                     res.get("raw2_named_profile"), ["a", "b"])):
         if prof is None:
             continue
         need = ["__splink__df_all_column_value_frequencies", "__splink__df_percentiles", "__splink__df_top_n", "__splink__df_bottom_n"]
